@@ -110,6 +110,51 @@ def _is_none_test(t: ast.AST, text: str, negated: bool) -> bool:
             and norm(t.left) == text and isinstance(t.comparators[0], ast.Constant) and t.comparators[0].value is None)
 
 
+def _norm_atoms(gs) -> set:
+    """(text, truth) with != written as (==, False) and `not in` as (in, False)."""
+    out = set()
+    for t, pol in gs:
+        if isinstance(t, ast.Compare) and len(t.ops) == 1 and isinstance(t.ops[0], (ast.NotEq, ast.NotIn, ast.IsNot)):
+            op = {ast.NotEq: "==", ast.NotIn: "in", ast.IsNot: "is"}[type(t.ops[0])]
+            out.add((f"{norm(t.left)} {op} {norm(t.comparators[0])}", not pol))
+        else:
+            out.add((norm(t), pol))
+    return out
+
+
+def _filtered_copy(f, scope, target: str):
+    """`target = [x for x in target if COND]` or the same written as a loop that appends to a
+    fresh list which is then assigned to target.  Returns (first component of the element,
+    keep-condition atoms, node) or None."""
+    for st in walk_local(scope):
+        tg, v = PT.assign_value(st)
+        if tg is None or norm(tg) != target or v is None:
+            continue
+        if isinstance(v, ast.ListComp) and len(v.generators) == 1 and norm(v.generators[0].iter) == target:
+            g = v.generators[0]
+            el = g.target
+            first = norm(el.elts[0]) if isinstance(el, ast.Tuple) and el.elts else f"{norm(el)}[0]"
+            if norm(v.elt) != norm(el):
+                return None
+            atoms = _norm_atoms(C.flatten_guards([(t, True) for t in g.ifs]))
+            return first, atoms, st
+        if isinstance(v, ast.Name):
+            lst = v.id
+            inits = [d for d in D.definitions(f).get(lst, []) if d[1] is not None and norm(d[1]) in ("[]", "list()")]
+            loops = [l for l in walk_local(scope) if isinstance(l, ast.For) and norm(l.iter) == target]
+            if len(inits) != 1 or len(loops) != 1:
+                return None
+            lp = loops[0]
+            el = lp.target
+            first = norm(el.elts[0]) if isinstance(el, ast.Tuple) and el.elts else f"{norm(el)}[0]"
+            apps = [c for c in walk_local(lp) if isinstance(c, ast.Call) and norm(c.func) == f"{lst}.append" and len(c.args) == 1]
+            if len(apps) != 1 or norm(apps[0].args[0]) != norm(el):
+                return None
+            atoms = _norm_atoms(C.flatten_guards(C.guards(f, apps[0], within=lp)))
+            return first, atoms, lp
+    return None
+
+
 def _finite_guarded(f, node, value_texts: List[str], within=None) -> bool:
     """node runs only when one of value_texts `is not None` (positive `is not None`, or a
     negative `is None`)."""
@@ -653,25 +698,17 @@ def f7_infinite_corrections(ctx) -> None:
             ctx.violation("F7", lp, f"for each rule `{r}` pumping {cc}, every child of self._rules[{r}].children must be visited")
         else:
             ch = inner[0].target.id
-            filt = PT.find_all(inner[0], f"self._rules_using_class[{ch}] = [(_M_ri, _M_ci) for _M_ri, _M_ci in self._rules_using_class[{ch}] if _E_t]")
-            filt2 = PT.find_all(inner[0], f"self._rules_using_class[{ch}] = [_M_p for _M_p in self._rules_using_class[{ch}] if _E_t]")
-            if filt:
-                b = filt[0][1]
-                keep = b["_E_t"]
-                if keep in (f"{b['_M_ri']} != {r}", f"{r} != {b['_M_ri']}", f"not {b['_M_ri']} == {r}"):
-                    ctx.ok("F7", "exactly the pairs of the rule that stops firing are removed from its children's tables")
-                else:
-                    ctx.violation("F7", filt[0][0], f"the pairs kept are those with `{keep}`; they must be those whose rule index differs from `{r}` ({b['_M_ri']} != {r}): "
-                                  "anything else drops registrations of other rules (they stop being corrected) or keeps dead ones")
-            elif filt2:
-                b = filt2[0][1]
-                keep = b["_E_t"]
-                if keep in (f"{b['_M_p']}[0] != {r}", f"{r} != {b['_M_p']}[0]"):
-                    ctx.ok("F7", "exactly the pairs of the rule that stops firing are removed from its children's tables")
-                else:
-                    ctx.violation("F7", filt2[0][0], f"the pairs kept are those with `{keep}`; they must be those whose rule index differs from `{r}`")
-            else:
+            fc = _filtered_copy(f, inner[0], f"self._rules_using_class[{ch}]")
+            if fc is None:
                 raise AnalysisError("F7: the filter of _rules_using_class[child] in _set_infinite is written in a way the analysis does not know")
+            first, keep, node = fc
+            want = {(f"{first} == {r}", False)}
+            alt = {(f"{r} == {first}", False)}
+            if keep in (want, alt):
+                ctx.ok("F7", "exactly the pairs of the rule that stops firing are removed from its children's tables")
+            else:
+                ctx.violation("F7", node, f"the pairs kept are those with {sorted(keep)}; they must be those whose rule index differs from `{r}` ({first} != {r}): "
+                              "anything else drops registrations of other rules (they stop being corrected) or keeps dead ones")
         if not C.dominates(f, C.stmt_of(mark), lp):
             ctx.violation("F7", lp, "the tables are cleaned before the class is marked infinite")
     clr = [c for c in _calls(f, f"self._rules_pumping_class[{cc}].clear")]
@@ -720,22 +757,21 @@ def f8_gap(ctx) -> None:
     if len(asg) != 1:
         ctx.violation("F8", f, "_correct_gap must set self._current_gap exactly once", construct=f"{TM}._correct_gap assignment")
         return
-    ng = _value_of(f, asg[0].value)
+    PG = "self._function.preimage_gap(self._gap_size)"
+    ng = D.expanded(f, asg[0].value)
     ng_name = norm(asg[0].value)
     if isinstance(ng, ast.Tuple) and len(ng.elts) == 2:
-        k = _value_of(f, ng.elts[0])
-        kname = norm(ng.elts[0])
-        hi = affine(ng.elts[1])
-        if norm(k) == "self._function.preimage_gap(self._gap_size)":
+        if norm(ng.elts[0]) == PG:
             ctx.ok("F8", "the gap starts at preimage_gap(_gap_size)")
         else:
-            ctx.violation("F8", asg[0], f"the gap must start at self._function.preimage_gap(self._gap_size); found `{norm(k)[:80]}`")
-        if hi == {kname: 1, "self._gap_size": 1, "1": -1}:
+            ctx.violation("F8", asg[0], f"the gap must start at {PG}; found `{norm(ng.elts[0])[:80]}`")
+        if affine(ng.elts[1]) == {PG: 1, "self._gap_size": 1, "1": -1}:
             ctx.ok("F8", "the gap is the window [k, k + _gap_size - 1]")
         else:
-            ctx.violation("F8", asg[0], f"the gap must end at `{kname} + self._gap_size - 1` (a window of _gap_size unused values); found `{norm(ng.elts[1])}`")
+            ctx.violation("F8", asg[0], f"the gap must end at `k + self._gap_size - 1` with k its start (a window of _gap_size unused values); found `{norm(ng.elts[1])[:90]}`")
     else:
         raise AnalysisError("F8: the new gap is not written as a pair")
+    end_aff = affine(ng.elts[1])
     ext = [c for c in _calls(f, "self._processing_queue.extend") if len(c.args) == 1 and norm(c.args[0]) == "self._rule_holding_extra_terms"]
     clr = _calls(f, "self._rule_holding_extra_terms.clear")
     if not ext:
@@ -745,9 +781,15 @@ def f8_gap(ctx) -> None:
         e = ext[0]
         rel = False
         for t, pol in C.flatten_guards(C.guards(f, e)):
-            g = _gt(t)
-            if pol and g is not None and g[1] == "self._current_gap[1]" and g[0] in (f"{ng_name}[1]", norm(ng.elts[1]) if isinstance(ng, ast.Tuple) else ""):
-                rel = True
+            tx = D.expanded(f, t)
+            if pol and isinstance(tx, ast.Compare) and len(tx.ops) == 1 and isinstance(tx.ops[0], (ast.Gt, ast.Lt)):
+                big, small = (tx.left, tx.comparators[0]) if isinstance(tx.ops[0], ast.Gt) else (tx.comparators[0], tx.left)
+                bigx = big
+                # `new_gap[1]` with new_gap expanded to a pair
+                if isinstance(bigx, ast.Subscript) and isinstance(bigx.value, ast.Tuple) and isinstance(bigx.slice, ast.Constant) and bigx.slice.value == 1 and len(bigx.value.elts) == 2:
+                    bigx = bigx.value.elts[1]
+                if norm(small) == "self._current_gap[1]" and affine(bigx) == end_aff:
+                    rel = True
         if not C.guards(f, e):
             rel = True
         before = _top_index(f, e) < _top_index(f, asg[0])
